@@ -37,7 +37,7 @@ class Sched:
         name = q.callee_name(c)
         if name.startswith(READER):
             k = name[len(READER):]
-            if k in PRIM_BYTES or k in ('string', 'skip_reserved', 'read_exact', 'take_bytes', 'unzip'):
+            if k in PRIM_BYTES or k in ('string', 'skip_reserved', 'read_exact', 'read_vec', 'take_bytes', 'unzip'):
                 return 'prim'
             return None
         cb = c.local_body()
@@ -284,7 +284,7 @@ class Sched:
             return ('R', 'skip', site, n, False, at[1], c.span)
         if name == 'read_exact':
             return ('R', 'bytes-raw', site, None, True, at[1], c.span)
-        if name == 'take_bytes':
+        if name in ('take_bytes', 'read_vec'):
             return ('R', 'bytes-raw', site, None, True, at[1], c.span)
         if name == 'unzip':
             return ('R', 'bytes-zlib', site, None, True, at[1], c.span)
